@@ -82,7 +82,8 @@ def main():
             results.append({"mutant": name, "property": prop, "status": status, "seconds": round(dt, 1)})
     if "--keep" not in args:
         shutil.rmtree(SCRATCH, ignore_errors=True)
-        shutil.rmtree(os.path.join(VERIF, ".build", "mut"), ignore_errors=True)
+        for d in glob.glob(os.path.join(VERIF, ".build", "mut*")):
+            shutil.rmtree(d, ignore_errors=True)
     json.dump(results, open(os.path.join(VERIF, "mutants", "last_results.json"), "w"), indent=1)
     return 0 if ok_all else 1
 
